@@ -86,12 +86,12 @@ Definition de_names (s : list mrec * list N) : option (list mrec) :=
 
 Definition file_write_names := file_write_gen (list mrec * list N) ser_names.
 
-(* one-line switch: flip to [true] when the writer of /repo refuses a ByteArrayStop value that
+(* one-line switch ([true] since /repo 61aefd0): [true] when the writer of /repo refuses a ByteArrayStop value that
    holds its stop byte with InvalidInput (/tmp/C07/fixes/09 or 10; known classes
    cram-read-name-with-nul-byte-shifts-names, cram-clip-or-insertion-base-nul-byte-cuts-feature).
    The positive theorems hold for both values; the *_refuted theorems and the NUL examples of
    props/C07.v are about [false] and must then be replaced by "the writer answers InvalidInput". *)
-Definition stop_byte_refused : bool := false.
+Definition stop_byte_refused : bool := true.
 
 Definition has_nul (o : option (list N)) : bool :=
   match o with Some s => existsb (N.eqb 0) s | None => false end.
